@@ -29,6 +29,8 @@ impl VarRef {
 
 #[derive(Clone, Debug, PartialEq)]
 pub enum Const {
+    /// a number literal already in canonical form (e.g. 0.125, 1000000)
+    Canonical(&'static str),
     Int(i64),
     Half(i64), // n + 0.5
     True,
@@ -76,6 +78,8 @@ pub enum Op {
     SayVar(VarRef),
     /// `say it` directly after `listen to <plain var>` (pronoun = that var)
     SayIt(VarId),
+    /// `listen to it` directly after `say <plain var>` (pronoun = that var)
+    ListenIt(VarId),
     SayConcat(String, VarId),
     Listen(Option<VarRef>),
     AssignLit(VarRef, String),
@@ -389,6 +393,7 @@ impl<'a> Model<'a> {
                 Op::SayLit(s) => self.say(s),
                 Op::SayConst(c) => {
                     let t = match c {
+                        Const::Canonical(s) => s.to_string(),
                         Const::Int(n) => n.to_string(),
                         Const::Half(n) => {
                             if *n < 0 {
@@ -423,6 +428,13 @@ impl<'a> Model<'a> {
                             self.set(d, line)
                         }
                     }
+                    None => {
+                        self.e.outcome = Outcome::Damaged;
+                        return Flow::Stop;
+                    }
+                },
+                Op::ListenIt(v) => match self.listen() {
+                    Some(line) => self.set(&VarRef::Plain(*v), line),
                     None => {
                         self.e.outcome = Outcome::Damaged;
                         return Flow::Stop;
